@@ -182,6 +182,9 @@ class C04(Check):
         bad = self._replace_oracle(data, cl, buf, sched, want, lim)
         if bad:
             return bad
+        bad = self._copy_oracle(data, cl, buf, sched, want, lim, w1['calls'])
+        if bad:
+            return bad
         # other accessors first (they may refuse the body as form text), then the body: same bytes
         for ctype, ops in (('application/json', ['?J', 'B']), ('application/x-www-form-urlencoded', ['?F', 'B']),
                            (None, ['?S', 'P1', 'B'])):
@@ -191,6 +194,45 @@ class C04(Check):
             for pos, n in w2['calls']:
                 if pos + n > lim:
                     return 'wsgi:read-beyond-content-length', f'read({n}) issued at offset {pos} with Content-Length {cl}'
+        return None
+
+    def _copy_oracle(self, data, cl, buf, sched, want, lim, solo_calls):
+        """request.copy() taken at any point of the buffered body's life (after a full read, after a partial read
+        that left the buffered copy's cursor anywhere, after a form / JSON accessor) is a request
+        on the same stream: it presents the same first Content-Length bytes, so does the original afterwards, in
+        any order of accesses on the two, and the server stream sees the reads of one buffering, not more"""
+        clh = str(cl) if cl >= 0 else None
+        ks = sorted({1, max(0, lim - 1), lim + 3, lim // 2})
+        # every sequence buffers the body on the original first: a copy made BEFORE the first access is a second
+        # reader of the one unbuffered server stream (nothing in the property's mechanism covers that), so there
+        # only the copy's own first access is checked
+        seqs = [(None, ['K', 'B']), (None, ['B', 'K', 'B', 'O', 'B']), (None, ['B', 'K', 'P2', 'B', 'K', 'B']),
+                (None, ['P1', 'K', 'P1', 'O', 'P2', 'K', 'B', 'O', 'B']), ('application/json', ['?J', 'P1', 'K', 'B']),
+                ('application/x-www-form-urlencoded', ['?F', 'P0', 'K', 'B', 'O', 'B']), (None, ['?S', 'P3', 'K', 'B'])]
+        seqs += [(None, [f'P{k}', 'K', 'B', 'O', 'B']) for k in ks]
+        seqs += [(None, ['B', f'P{k}', 'K', f'P{k + 1}', 'B']) for k in ks[1:2]]
+        for ctype, ops in seqs:
+            w = bl.run_wsgi('@', buf, None, clh, None, data, sched, ops, ctype=ctype)
+            shown = ''.join(o[0].lstrip('?') for o in ops)
+            if w['status'] != 200:
+                return 'copy:status', f'request.copy() in the access sequence {",".join(ops)}: status {w["status"]}'
+            nb = sum(o == 'B' for o in ops)
+            bodies = w['info'].get('bodies', [])
+            if len(bodies) != nb or any(b != want for b in bodies):
+                i = next((j for j, b in enumerate(bodies) if b != want), len(bodies))
+                return 'copy:body-differs', (f'access sequence {",".join(ops)} (K = continue on request.copy(), O = back on the '
+                                             f'original): body access {i + 1} of {nb} gave {len(bodies[i]) if i < len(bodies) else None} '
+                                             f'bytes ({bodies[i]!r:.30}), the first Content-Length bytes of the stream are {len(want)}')
+            # partial reads start at the beginning of the body on whichever object they are made
+            for op, tok in zip([o.lstrip('?') for o in ops], w['outs']):
+                if op[0] == 'P' and tok != 'p:' + core.hb(want[:int(op[1:])]):
+                    return 'copy:partial-read-differs', (f'access sequence {",".join(ops)}: body.read({op[1:]}) gave {tok[2:]!r:.40}, '
+                                                         f'expected the first {op[1:]} of the first Content-Length bytes')
+            if w['calls'] != solo_calls:
+                beyond = any(pos + n > lim for pos, n in w['calls'])
+                return ('copy:read-beyond-content-length' if beyond else 'copy:extra-reads',
+                        f'access sequence {",".join(ops)}: the server stream saw read calls {w["calls"][:12]}, '
+                        f'one buffering of the body makes {solo_calls[:12]}')
         return None
 
     def _replace_oracle(self, data, cl, buf, sched, want, lim):
